@@ -60,8 +60,9 @@ def gen_package(rng, nm=None, nap=None, nw=None, nfilt=None, positive=True):
         if rng.random() < 0.5:
             resp[0] = resp[-1] = 0.0
         filters.append(dict(name='F%s' % 'ABC'[k], wav=rng.dyadic(0.5, 20.0, 8), nu=fnu, resp=resp, order=rng.choice(['incr', 'decr']),
-                            normalize=rng.random() < 0.7))
-    return dict(names=names, fnames=fnames, par_order=par_order, par1={n: rng.dyadic(0, 100, 10) for n in names},
+                            normalize=rng.random() < 0.7, wunit=rng.choice(['micron', 'micron', 'mm', 'nm', 'Angstrom'])))     # wunit: the unit the central wavelength is declared in
+    # flux_unit: the unit the fluxes are stored in (the numbers are in that unit; the model works in mJy); C07 also draws Jy
+    return dict(flux_unit='mJy', names=names, fnames=fnames, par_order=par_order, par1={n: rng.dyadic(0, 100, 10) for n in names},
                 nu=nus, aps=aps, seds=seds, filters=filters, cube_order=rng.choice(['incr', 'decr']))
 
 
@@ -98,7 +99,7 @@ def make_filters(pkg):
     from sedfitter.filter import Filter
     out = []
     for f in pkg['filters']:
-        flt = Filter(name=f['name'], central_wavelength=f['wav'] * u.micron, nu=np.array(_ord(f['nu'], f['order'])) * u.Hz,
+        flt = Filter(name=f['name'], central_wavelength=(f['wav'] * u.micron).to(u.Unit(f.get('wunit', 'micron'))), nu=np.array(_ord(f['nu'], f['order'])) * u.Hz,
                      response=np.array(_ord(f['resp'], f['order'])))
         if f['normalize']:
             flt.normalize()
@@ -124,7 +125,11 @@ def write_params(d, pkg):
     t.write(os.path.join(d, 'parameters.fits'))
 
 
-def make_sed(pkg, n, unit='mJy'):
+UNIT_MJY = {'mJy': 1, 'Jy': 1000}
+
+
+def make_sed(pkg, n, unit=None):
+    unit = unit or pkg.get('flux_unit', 'mJy')
     import numpy as np
     from astropy import units as u
     from sedfitter.sed import SED
@@ -185,9 +190,10 @@ def make_cube(pkg, with_unc=True):
     else:
         c.nu = np.array(_ord(pkg['nu'], o)) * u.Hz
     c.apertures = None if pkg['aps'] is None else np.array(pkg['aps']) * u.au
-    c.val = np.array([[_ord(row, o) for row in pkg['seds'][n]['flux']] for n in pkg['par_order']]) * u.mJy
+    cu = u.Unit(pkg.get('flux_unit', 'mJy'))
+    c.val = np.array([[_ord(row, o) for row in pkg['seds'][n]['flux']] for n in pkg['par_order']]) * cu
     if with_unc:
-        c.unc = np.array([[_ord(row, o) for row in pkg['seds'][n]['err']] for n in pkg['par_order']]) * u.mJy
+        c.unc = np.array([[_ord(row, o) for row in pkg['seds'][n]['err']] for n in pkg['par_order']]) * cu
     return c
 
 
@@ -219,4 +225,5 @@ def filt_pts(pkg, k, norm_resp=None):
 def sedm(pkg, n, order=None):
     sd = pkg['seds'][n]
     o = order or sd['order']
-    return [key(n), [F(x) for x in _ord(sd.get('nu', pkg['nu']), o)], [[F(x) for x in _ord(row, o)] for row in sd['flux']], [[F(x) for x in _ord(row, o)] for row in sd['err']]]
+    k = UNIT_MJY[pkg.get('flux_unit', 'mJy')]
+    return [key(n), [F(x) for x in _ord(sd.get('nu', pkg['nu']), o)], [[F(x) * k for x in _ord(row, o)] for row in sd['flux']], [[F(x) * k for x in _ord(row, o)] for row in sd['err']]]
